@@ -677,6 +677,10 @@ pub fn check(m: Arc<dyn DynMonitor>, tier: Tier, seed: u64, scrut_bin: PathBuf) 
             "sidecars": sidecars,
             "inconclusive_reasons": a.inconclusive_reasons,
             "floors_missed": floors_missed,
+            "floors": {
+                "distinct_nontrivial": {"required": plan.floor_nontrivial, "observed": distinct},
+                "buckets": plan.floor_buckets.iter().map(|(b, n)| json!({"bucket": b, "required": n, "observed": a.buckets.get(b).copied().unwrap_or(0)})).collect::<Vec<_>>(),
+            },
             "harness_errors": a.harness_errors,
             "inconclusive_tolerated_up_to": tolerated,
             "verdict": match (exit, a.inconclusive) {
